@@ -35,6 +35,10 @@ partial def content (j : Json) : Except String Content := do
   if hasField j "i" then return .int (← (← field j "i").getInt?)
   if hasField j "b" then return .bool (← (← field j "b").getBool?)
   if hasField j "n" then return .none
+  if hasField j "shared" then
+    -- one list/dict object occurring `times` times: by value, `times` copies
+    let c ← content (← field j "shared")
+    return .list (List.replicate (← natField j "times") c)
   if hasField j "l" then return .list (← (← arrField j "l").mapM content)
   if hasField j "d" then
     let kvs ← (← arrField j "d").mapM fun kv => do
